@@ -7,6 +7,7 @@ import (
 	"fmt"
 	"os"
 	"path/filepath"
+	"strings"
 
 	"cosmossdk.io/math"
 	sdk "github.com/cosmos/cosmos-sdk/types"
@@ -330,6 +331,36 @@ func checkC17(run *mon.Run, rng *mon.Rand, thorough bool) {
 		run.Check("diff.output_root", gotO == ref.OutputRoot(ver, srC, bhC), "c17.diff.output_root", []interface{}{ver, hex.EncodeToString(sr), hex.EncodeToString(bh)}, "output root differs")
 		run.Check("purity.args_unchanged", bytes.Equal(sr, srC) && bytes.Equal(bh, bhC), "c17.purity.output_root_args", nil, "GenerateOutputRoot modified its arguments")
 		run.Distinct(fmt.Sprintf("output_root/v%d", ver>>6))
+	}
+
+	// ---- history (in)dependence: inputs that would collide in a cache keyed by a naive concatenation of the arguments,
+	// called in both orders and re-called; every call must still equal the reference ----
+	run.Declare("diff.history_independent", 100)
+	for i := 0; i < pick(thorough, 300, 5000); i++ {
+		b := uint64(1 + rng.Intn(1000))
+		digit := uint64(rng.Intn(10))
+		rest := mon.Pick(rng, []string{"uinit", "uusdc", "x", "ibc/ABC", "0", "00", ""}) + fmt.Sprint(rng.Intn(3))
+		// (b, digit+rest) and (b*10+digit, rest) have the same decimal concatenation; so have (b, "1"+rest) / (b*10+1, rest) ...
+		pairs := [][2]interface{}{{b, fmt.Sprint(digit) + rest}, {b*10 + digit, rest}, {b, rest}, {b * 10, fmt.Sprint(digit) + rest}}
+		if rng.Bool() {
+			pairs[0], pairs[1] = pairs[1], pairs[0]
+		}
+		for rep := 0; rep < 2; rep++ {
+			for _, pr := range pairs {
+				id, d := pr[0].(uint64), pr[1].(string)
+				run.Evaluations++
+				run.Check("diff.history_independent", ophosttypes.L2Denom(id, d) == ref.L2Denom(id, d), "c17.history_dependent.l2denom", []interface{}{id, d}, "L2Denom(%d,%q) differs from the reference after other calls in this process", id, d)
+				run.Check("diff.history_independent", bytes.Equal(ophosttypes.BridgeAddress(id), ref.BridgeAddress(id)), "c17.history_dependent.bridge_addr", id, "BridgeAddress(%d) differs from the reference after other calls", id)
+			}
+		}
+		// leaf: field boundaries shifted between sender / receiver / denom, and case-folded twins
+		fa, fb := "ab"+rest, "c"
+		for _, f := range [][3]string{{fa, fb, "uinit"}, {"ab", rest + "c", "uinit"}, {fa + fb, "", "uinit"}, {fa, fb + "uinit", ""}, {strings.ToUpper(fa), fb, "uinit"}, {fa, strings.ToUpper(fa), "uinit"}, {"cosmos1abc", "COSMOS1ABC", "uinit"}, {"K", "\u212a", "uinit"}} {
+			got := ophosttypes.GenerateWithdrawalHash(b, digit, f[0], f[1], f[2], b)
+			run.Evaluations++
+			run.Check("diff.history_independent", got == ref.Leaf(b, digit, f[0], f[1], f[2], b), "c17.history_dependent.leaf", []interface{}{b, digit, f}, "leaf for (%q,%q,%q) differs from the reference", f[0], f[1], f[2])
+		}
+		run.Distinct(fmt.Sprintf("history/%d/%d", digit, len(rest)))
 	}
 
 	// ---- node hash: pairs incl. equal / adjacent / last-byte differences, all layouts of the two args ----
